@@ -83,17 +83,30 @@ func writeEvidence(prop, tier string, seed uint64, engines []Engine, a *aggregat
 		"components_real":     real,
 		"components_stub":     stub,
 	}
+	assumptions := []string{
+		"the reference model (slot forest, /verif/sim/model.go) is a faithful reading of the property text; it shares no code with the library",
+		"seeded search samples the scenario space; a clean batch is evidence, not proof",
+		"SHA-512/256 collisions are ignored",
+	}
+	for _, e := range engines {
+		if ea, ok := e.(interface{ Assumptions() []string }); ok {
+			assumptions = ea.Assumptions()
+		}
+		if ex, ok := e.(interface {
+			ExtraCoverage(*Stats) map[string]interface{}
+		}); ok {
+			for k, v := range ex.ExtraCoverage(a.stats) {
+				cov[k] = v
+			}
+		}
+	}
 	ev := map[string]interface{}{
 		"property_id": prop,
 		"tier":        tier,
 		"seed":        int64(seed & 0x7fffffffffffffff),
 		"level":       levels[prop],
 		"coverage":    cov,
-		"assumptions": []string{
-			"the reference model (slot forest, /verif/sim/model.go) is a faithful reading of the property text; it shares no code with the library",
-			"seeded search samples the scenario space; a clean batch is evidence, not proof",
-			"SHA-512/256 collisions are ignored",
-		},
+		"assumptions": assumptions,
 		"wall_s":     wall,
 		"violations": a.confirmed,
 	}
